@@ -460,7 +460,7 @@ def validate_entry(e, ctx, paths, rng, stats):
                       max_rel_err=worst))
 
 
-HEADER = """(* GENERATED by /verif/tools/gen.py from %s -- do not edit. *)
+HEADER = """(* GENERATED by /verif/tools/gen.py from the pyins sources (%s) -- do not edit. *)
 From Coq Require Import Reals.
 From PV Require Import Spec.LibSpecs.
 Open Scope R_scope.
@@ -488,7 +488,7 @@ def generate(seed=0, validate=True, write=True, only=None):
     if write:
         os.makedirs(GEN_DIR, exist_ok=True)
         for mod, parts in texts.items():
-            body = HEADER % REPO + "\n".join(parts)
+            body = HEADER % "PYINS_REPO" + "\n".join(parts)
             path = os.path.join(GEN_DIR, mod + '.v')
             old = open(path).read() if os.path.exists(path) else None
             if old != body:
